@@ -358,6 +358,8 @@ pub fn topo_named(cell: &Cell, name: &str) -> Topo {
     t
 }
 
+/// Every topology name `topo_named` understands (replay artefacts name one of these).
+pub const TOPO_NAMES: &[&str] = &["L1", "L2", "L3", "L4", "silent-mid", "silent-target", "silent-all", "every-other", "dup", "ecmp", "refuse", "far-target-late"];
 pub const TOPOLOGIES: &[&str] = &["L1", "L2", "L3", "silent-mid", "silent-target", "every-other", "dup", "ecmp"];
 
 // ---------------------------------------------------------------------------------------------
